@@ -319,7 +319,9 @@ def write_evidence(prop, tier, seed, cov, wall, nviol, assumptions):
 
 
 ASSUME = {
-    "cosim": ["decision schedules are sampled (seeded, coverage-guided), not enumerated",
+    "cosim": ["decision schedules are sampled (seeded, coverage-guided), not enumerated; reach.product_closed counts the runs in "
+              "which, at every stage prefix, no discovered (original block, control-variable valuation) state was left with an "
+              "untaken decision, i.e. the sampled walks happened to cover the whole reachable product",
               "graph sizes bounded (quick n<=12, thorough n<=24); at most two ordered distinct successors per input block",
               "walker semantics W1/W2 are the harness's reading of the property statement (DESIGN 4.3)",
               "runs whose pipeline raises are counted as STAGE-RAISED and are inconclusive (C02 not claimed)"],
